@@ -44,6 +44,8 @@ def _rules():
         ("the …_at_trail_position queries agree", C17.l16),
         ("INCREMENTAL-RESET of un-trailed propagator state", C17.l20),
         ("backtrack resets the notified-trail mark", C01.s17),
+        ("a solution is declared only when the brancher has nothing and no domain is unassigned", C01.s3),
+        ("the fallback scan for unfixed variables covers every domain", C01.s3c),
         ("no Constraint::post / implied_by returns Ok(()) without posting", C01.s18),
         ("eager reasons select by position only", C17.l22),
         ("buffered lazy explanations are rebuilt on every call", C17.l23),
